@@ -1,4 +1,5 @@
 import HpoProofs.BinaryLoad
+import HpoProofs.LoadRefine
 /-!
 # C07 — binary serialisation round-trips
 
@@ -12,10 +13,26 @@ steps on decoded records (`HpoModel/Load.lean`).
 ids < 2^32), counts and section payloads < 2^32 bytes, release version (u16, u8, u8), a replacement
 id is not 0.  There is NO hypothesis on name lengths.
 
-What is proved in full: the byte level — whatever `as_bytes` writes is decoded to exactly the records
-it wrote, never rejected, in any record order; name truncation is the longest valid prefix.
-What is `_partial`: the step from "same records" to "observationally identical ontology", see
-`C07_roundtrip_partial`.
+`Reachable o` (`HpoProofs/LoadRefine.lean`): the class of ontologies the property quantifies over,
+as an explicit predicate — what the public constructors establish (C01, C02, C03, C15, C19): unique
+term ids < 10^7; parents resolve; children = inverse of parents; ancestor groups = transitive closure
+of parents, irreflexive; per kind unique record ids, a record id on a term iff the record is directly
+annotated to the term or a descendant, direct terms resolve; all groups strictly ascending; stored
+ic pairs = `icPair #records #linked` with counts that passed `InformationContent::calculate`; both
+roots; categories / modifier = the default groups.  `C07_reachable_builder`: every ontology of the
+Builder route is `Reachable`; `C07_reachable_roundtrip`: so is every reloaded one.
+
+What is proved in full:
+* byte level, for EVERY encodable ontology: whatever `as_bytes` writes is decoded to exactly the
+  records it wrote, never rejected by the decoder, in any record order; name truncation is the longest
+  valid prefix (`C07_bytes_*`, `C07_truncation_spec`);
+* refinement, for every `Reachable` ontology: the builder steps of `from_bytes` on those records
+  succeed and rebuild the ontology itself up to the documented name cut — literally
+  `decodeBytes (encodeOnto o) = .ok (truncOnto o)` (`C07_roundtrip`), hence never rejected
+  (`C07_never_rejected`), and with the records of every section in any order all lookups are the
+  same (`C07_record_order`).
+What is `_partial`: `Reachable` is proved for the Builder route and for reloaded ontologies only
+(`C07_reachable_constructors_partial`).
 -/
 namespace Hpo.C07
 open Hpo Hpo.Binary Hpo.Proto
@@ -38,19 +55,12 @@ theorem C07_name_decodes (cs : List Char) : utf8Decode (utf8 (truncName cs)) = s
 
 /-! ### round trip -/
 
-/-- Byte level of the round trip, for EVERY encodable ontology: `as_bytes` produces a file that
-`from_bytes` recognises as v3 and decodes to exactly the records written (terms: id, truncated
-name, obsolete, replacement; parents; genes; diseases; release version), so the reloaded ontology
-is the one `from_bytes`'s builder steps make of these records.
-
-Full statement (NOT proved): `∃ o', decodeBytes (encodeOnto o) = .ok o' ∧ o' ≃ trunc o` for every `o`
-produced by a public constructor with default categories, `≃` = equality of the whole read API.
-Missing: the refinement `Onto.loadFacts 3 (factsOf o) ≃ trunc o` for reachable `o` — it needs the
-invariants of the builder (parents/children symmetric, `allParents` = transitive closure, annotations
-upward closed, ic from counts, default categories: properties C01, C02, C03, C19).  The
-correspondence check compares `from_bytes(as_bytes(o))` with `o` through the whole read API on both
-sides for every generated ontology (`rtcheck`, `same`, `dump`). -/
-theorem C07_roundtrip_partial (o : Onto) (h : EncOK o) :
+/-- Byte level of the round trip, for EVERY encodable ontology (no well-formedness hypothesis):
+`as_bytes` produces a file that `from_bytes` recognises as v3 and decodes to exactly the records
+written (terms: id, truncated name, obsolete, replacement; parents; genes; diseases; release
+version), so the reloaded ontology is the one `from_bytes`'s builder steps make of these records.
+The step from the records to the ontology is `C07_roundtrip` below. -/
+theorem C07_bytes_roundtrip (o : Onto) (h : EncOK o) :
     version (encodeOnto o) = .ok (3, encBody 3 (factsOf o)) ∧
     decodeRaw 3 (encBody 3 (factsOf o)) = .ok (factsOf o) ∧
     decodeBytes (encodeOnto o) = Onto.loadFacts 3 (factsOf o) := by
@@ -71,7 +81,7 @@ theorem C07_roundtrip_terms (o o' : Onto) (h : EncOK o) (hnd : (o.terms.map (·.
     o'.version = o.version ∧
     o'.terms.map (fun t => (t.id, t.name, t.obsolete, t.replacement)) =
       o.terms.map (fun t => (t.id, truncName t.name, t.obsolete, t.replacement)) := by
-  rw [(C07_roundtrip_partial o h).2.2] at hload
+  rw [(C07_bytes_roundtrip o h).2.2] at hload
   have hid : ∀ t ∈ (factsOf o).terms, t.id < maxId := fun t ht => ((FileOK_factsOf o h).facts.terms t ht).1
   have := loadFacts_terms 3 (by decide) (factsOf o) o' hid
     (by simpa [factsOf, map_id_termFacts] using hnd) hload
@@ -80,25 +90,18 @@ theorem C07_roundtrip_terms (o o' : Onto) (h : EncOK o) (hnd : (o.terms.map (·.
   simp only [factsOf, map_core_termFacts] at e
   exact e
 
-/-- Serialisation never emits bytes that the DECODER rejects or panics on: version detection,
-framing and every record decoder succeed (no `err`, no `panic`, no `diverge`).
-
-Full statement (NOT proved): `(decodeBytes (encodeOnto o)).isOk`.  Missing: `Onto.loadFacts 3 (factsOf o)`
-is `ok` — for an ontology that came out of a public constructor the same builder steps succeeded
-before (both roots present, acyclic, linked terms exist, ≤ 65535 records per kind); as a theorem this
-is part of the refinement named in `C07_roundtrip_partial`. -/
-theorem C07_never_rejected_partial (o : Onto) (h : EncOK o) :
+/-- Serialisation never emits bytes that the DECODER rejects or panics on, for EVERY encodable
+ontology: version detection, framing and every record decoder succeed (no `err`, no `panic`, no
+`diverge`).  That the builder steps succeed as well is `C07_never_rejected` below. -/
+theorem C07_bytes_accepted (o : Onto) (h : EncOK o) :
     ((version (encodeOnto o)).bind fun v => decodeRaw v.1 v.2).isOk = true := by
-  obtain ⟨hv, hr, _⟩ := C07_roundtrip_partial o h
+  obtain ⟨hv, hr, _⟩ := C07_bytes_roundtrip o h
   simp [hv, hr, Res.bind, Res.isOk]
 
-/-- Hash-map iteration order: with the records of every section written in any other order the file
-is still valid and decodes to exactly those records (in that order).
-
-Full statement (NOT proved): the two reloaded ontologies are observationally equal.  Missing:
-invariance of `Onto.loadFacts` under permutation of its record lists (C16); checked by
-correspondence (`asbytes` canonical form, `same`). -/
-theorem C07_record_order_partial (o : Onto) (h : EncOK o) (g : RawFacts) (hp : FactsPerm (factsOf o) g) :
+/-- Hash-map iteration order, byte level, for EVERY encodable ontology: with the records of every
+section written in any other order the file is still valid and decodes to exactly those records (in
+that order).  That the reloaded ontologies are observationally equal is `C07_record_order` below. -/
+theorem C07_bytes_record_order (o : Onto) (h : EncOK o) (g : RawFacts) (hp : FactsPerm (factsOf o) g) :
     decodeRaw 3 (encBody 3 g) = .ok (projFacts 3 g) ∧ FactsPerm (factsOf o) (projFacts 3 g) ∧
     decodeBytes (encodeRaw 3 g) = Onto.loadFacts 3 (projFacts 3 g) := by
   have hg := (FileOK_factsOf o h).perm hp
@@ -108,6 +111,101 @@ theorem C07_record_order_partial (o : Onto) (h : EncOK o) (g : RawFacts) (hp : F
   refine ⟨hr, ?_, hb⟩
   have := projFacts_perm 3 hp
   rwa [projFacts_factsOf] at this
+
+/-! ### the refinement step: same records ⇒ same ontology -/
+
+/-- **The class is inhabited by everything the Builder produces**: any history of `new_term` /
+`add_parent` calls (failing calls included) with an acyclic result, `connect_all_terms`, any history of
+`add_gene` / `add_*_disease` / `annotate_*` calls, `calculate_information_content`,
+`build_with_defaults`. -/
+theorem C07_reachable_builder (tops : List BOp) (o oc : Onto) (hrun : runB tops {} = some o)
+    (hac : C01.Acyclic o) (hc : o.connectAll = .ok oc) (aops : List AOp) (r d : Onto)
+    (hic : (runA aops oc).calcIc = .ok r) (hd : r.buildWithDefaults = .ok d) : Reachable d :=
+  reachable_of_builder tops o oc hrun hac hc aops r d hic hd
+
+/-- … and is closed under the round trip: the reloaded ontology is in the class again -/
+theorem C07_reachable_roundtrip (o : Onto) (h : Reachable o) : Reachable (truncOnto o) :=
+  reachable_truncOnto o h
+
+/-- Full statement (NOT proved): every ontology returned by a public constructor followed by
+`build_with_defaults` — the Builder, `from_bytes` of ANY valid v1–v3 file, the two text loaders,
+`sub_ontology` — is `Reachable`.  Proved: the Builder route and closure under the round trip (so also
+a round trip of a round trip).  Missing: the other constructors end in the same builder steps
+(`Onto.loadFacts`, `C09_file_partial`, C14) but on records that are not known to come from a
+well-formed ontology (a foreign file may list a parent that is no term, or the same record id
+twice — then `Reachable` is in fact false); the correspondence check runs the round trip on
+ontologies from all of them. -/
+theorem C07_reachable_constructors_partial :
+    (∀ (tops : List BOp) (o oc : Onto) (aops : List AOp) (r d : Onto), runB tops {} = some o →
+      C01.Acyclic o → o.connectAll = .ok oc → (runA aops oc).calcIc = .ok r →
+      r.buildWithDefaults = .ok d → Reachable d) ∧
+    (∀ o, Reachable o → Reachable (truncOnto o)) :=
+  ⟨fun tops o oc aops r d h1 h2 h3 h4 h5 => reachable_of_builder tops o oc h1 h2 h3 aops r d h4 h5,
+   reachable_truncOnto⟩
+
+/-- The builder steps of `from_bytes` succeed on the records `as_bytes` writes: no error (both roots
+are there, every linked term exists, the ic counts fit), no panic (every id is below 10^7 and
+resolves), no divergence (acyclic). -/
+theorem C07_load_total (o : Onto) (h : Reachable o) :
+    ∃ o', Onto.loadFacts 3 (factsOf o) = .ok o' :=
+  ⟨_, loadFacts_factsOf o h⟩
+
+/-- … and rebuild the ontology itself with names cut: the result is `truncOnto o` LITERALLY (same
+slots in the same order, same record lists, every field of every term and record), in particular
+every term lookup, every record lookup, release version, categories and modifier agree. -/
+theorem C07_load_refines (o o' : Onto) (h : Reachable o)
+    (hl : Onto.loadFacts 3 (factsOf o) = .ok o') :
+    o' = truncOnto o ∧ o'.version = o.version ∧
+    (∀ j, getT o'.terms j = (getT o.terms j).map truncTerm) ∧
+    (∀ k r, getR (o'.recs k) r = (getR (o.recs k) r).map (truncRec k)) ∧
+    o'.categories = o.categories ∧ o'.modifier = o.modifier := by
+  rw [loadFacts_factsOf o h] at hl
+  cases hl
+  exact ⟨rfl, rfl, getT_truncOnto o, getR_truncOnto o, rfl, rfl⟩
+
+/-- **Round trip.** For every `Reachable`, encodable ontology `from_bytes(as_bytes(o))` succeeds and
+returns `o` with term and gene names cut to the longest prefix of ≤ 255 bytes that ends at a
+character boundary — every observation equal (`ObsTrunc`: release version; per term id, name cut,
+obsolete flag, replacement, parents, children, ancestors, linked genes / OMIM / ORPHA records, the
+three ic pairs; per record id, name (genes: cut), direct terms; categories; modifier). -/
+theorem C07_roundtrip (o : Onto) (hr : Reachable o) (he : EncOK o) :
+    decodeBytes (encodeOnto o) = .ok (truncOnto o) ∧ ObsTrunc o (truncOnto o) := by
+  rw [(C07_bytes_roundtrip o he).2.2]
+  exact ⟨loadFacts_factsOf o hr, obsTrunc_truncOnto o⟩
+
+/-- … and when no term or gene name exceeds 255 bytes the round trip is the identity -/
+theorem C07_roundtrip_identity (o : Onto) (hr : Reachable o) (he : EncOK o)
+    (hs : o.slot0 = placeholder) (ht : ∀ t ∈ o.terms, (utf8 t.name).length ≤ 255)
+    (hg : ∀ r ∈ o.genes, (utf8 r.name).length ≤ 255) : decodeBytes (encodeOnto o) = .ok o := by
+  rw [(C07_roundtrip o hr he).1, truncOnto_eq_self o hs ht hg]
+
+/-- **Never rejected.** Serialisation of a `Reachable` ontology never yields bytes that
+`from_bytes` rejects: the whole of `from_bytes` returns `Ok`. -/
+theorem C07_never_rejected (o : Onto) (hr : Reachable o) (he : EncOK o) :
+    (decodeBytes (encodeOnto o)).isOk = true := by
+  rw [(C07_roundtrip o hr he).1]; rfl
+
+/-- **Record order** (hash-map iteration order of the writer): with the records of every section in
+any order the file loads, and every observation is that of `o` with names cut — hence any two such
+files load to ontologies with equal lookups. -/
+theorem C07_record_order (o : Onto) (hr : Reachable o) (he : EncOK o) (g : RawFacts)
+    (hp : FactsPerm (factsOf o) g) :
+    ∃ o', decodeBytes (encodeRaw 3 g) = .ok o' ∧ ObsTrunc o o' := by
+  obtain ⟨_, hperm, hb⟩ := C07_bytes_record_order o he g hp
+  obtain ⟨o', hl, L⟩ := loadFacts_refine o hr (projFacts 3 g) hperm
+  exact ⟨o', hb.trans hl, L.obs hr hperm⟩
+
+theorem C07_record_order_same (o : Onto) (hr : Reachable o) (he : EncOK o) (g1 g2 : RawFacts)
+    (hp1 : FactsPerm (factsOf o) g1) (hp2 : FactsPerm (factsOf o) g2) :
+    ∃ o1 o2, decodeBytes (encodeRaw 3 g1) = .ok o1 ∧ decodeBytes (encodeRaw 3 g2) = .ok o2 ∧
+      o1.version = o2.version ∧ (∀ j, getT o1.terms j = getT o2.terms j) ∧
+      (∀ k r, getR (o1.recs k) r = getR (o2.recs k) r) ∧
+      o1.categories = o2.categories ∧ o1.modifier = o2.modifier := by
+  obtain ⟨o1, h1, a⟩ := C07_record_order o hr he g1 hp1
+  obtain ⟨o2, h2, b⟩ := C07_record_order o hr he g2 hp2
+  exact ⟨o1, o2, h1, h2, a.version.trans b.version.symm, fun j => (a.terms j).trans (b.terms j).symm,
+    fun k r => (a.recs k r).trans (b.recs k r).symm, a.categories.trans b.categories.symm,
+    a.modifier.trans b.modifier.symm⟩
 
 /-! ### counterexamples: why the fix and the hypotheses are needed -/
 
@@ -157,7 +255,7 @@ theorem C07_minimal_categories_counterexample :
     k2Onto.categories = [] ∧ k2Onto.modifier = [] ∧
     (decodeBytes (encodeOnto k2Onto)).toOption.map (fun o' => (o'.categories, o'.modifier)) = some ([5], [5]) := by
   refine ⟨rfl, rfl, ?_⟩
-  rw [(C07_roundtrip_partial k2Onto C07_k2Onto_encodable).2.2]
+  rw [(C07_bytes_roundtrip k2Onto C07_k2Onto_encodable).2.2]
   decide
 
 /-! ### non-vacuity -/
@@ -177,5 +275,90 @@ example : EncOK longOnto := by
 set_option maxRecDepth 100000 in
 /-- … and its gene name is written as 127 × `é` = 254 bytes -/
 example : (factsOf longOnto).genes.map (fun r => (utf8 r.name).length) = [254] := by decide
+
+/-! ### non-vacuity of the refinement theorems: a Builder-made ontology with a diamond, an obsolete
+replaced term, a duplicate `new_term`, failing `add_parent` / `annotate` calls, the three record
+kinds, a record without terms and a 600-byte gene name -/
+
+def rtTops : List BOp :=
+  [.term "All".toList 1, .term "Phenotypic abnormality".toList 118, .term "Mode".toList 5,
+   .term "old".toList 7 true (some 9), .term "B".toList 9, .term "é".toList 11, .term "dup".toList 9,
+   .parent 1 118, .parent 1 5, .parent 118 7, .parent 118 9, .parent 42 9, .parent 7 11, .parent 9 11,
+   .parent 1 118]
+
+def rtAnn : List AOp :=
+  [.annotate .gene 2175 "FANCA".toList 11, .annotate .gene 3 (List.replicate 300 'é') 7,
+   .addRec .orpha "none".toList 84, .annotate .omim 100 "D".toList 9,
+   .annotate .gene 2175 "FANCA".toList 9, .annotate .omim 7 "x".toList 4242,
+   .annotate .orpha 5 "O".toList 5]
+
+def rtPre : Onto := (runB rtTops {}).getD {}
+def rtConn : Onto := rtPre.connectAll.toOption.getD {}
+def rtIc : Onto := (runA rtAnn rtConn).calcIc.toOption.getD {}
+
+/-- what the Builder returns for `rtTops`, `connect_all_terms`, `rtAnn`,
+`calculate_information_content`, `build_with_defaults` (`C07_rtOnto_built`) -/
+def rtOnto : Onto :=
+  { terms := [{ id := 1, name := "All".toList, children := [5, 118], genes := [3, 2175], omim := [100],
+                orpha := [5], icGene := (2, 2), icOmim := (1, 1), icOrpha := (1, 2) },
+              { id := 118, name := "Phenotypic abnormality".toList, parents := [1], allParents := [1],
+                children := [7, 9], genes := [3, 2175], omim := [100], icGene := (2, 2), icOmim := (1, 1) },
+              { id := 5, name := "Mode".toList, parents := [1], allParents := [1], orpha := [5],
+                icOrpha := (1, 2) },
+              { id := 7, name := "old".toList, parents := [118], allParents := [1, 118], children := [11],
+                genes := [3, 2175], icGene := (2, 2), obsolete := true, replacement := some 9 },
+              { id := 9, name := "B".toList, parents := [118], allParents := [1, 118], children := [11],
+                genes := [2175], omim := [100], icGene := (1, 2), icOmim := (1, 1) },
+              { id := 11, name := "é".toList, parents := [7, 9], allParents := [1, 7, 9, 118],
+                genes := [2175], icGene := (1, 2) }]
+    genes := [{ id := 2175, name := "FANCA".toList, hpos := [9, 11] },
+              { id := 3, name := List.replicate 300 'é', hpos := [7] }]
+    omim := [{ id := 100, name := "D".toList, hpos := [9] }]
+    orpha := [{ id := 84, name := "none".toList }, { id := 5, name := "O".toList, hpos := [5] }]
+    categories := [5, 7, 9]
+    modifier := [5] }
+
+set_option maxRecDepth 100000 in
+theorem C07_rtOnto_built : runB rtTops {} = some rtPre ∧ rtPre.connectAll = .ok rtConn ∧
+    (runA rtAnn rtConn).calcIc = .ok rtIc ∧ rtIc.buildWithDefaults = .ok rtOnto := by
+  refine ⟨by decide, by decide, by decide, by decide⟩
+
+theorem C07_rtOnto_reachable : Reachable rtOnto := by
+  obtain ⟨h1, h2, h3, h4⟩ := C07_rtOnto_built
+  refine C07_reachable_builder rtTops rtPre rtConn h1 ?_ h2 rtAnn rtIc rtOnto h3 h4
+  refine C01.acyclic_of_terms rtPre
+    (fun j => if j = 1 then 0 else if j = 118 ∨ j = 5 then 1 else if j = 7 ∨ j = 9 then 2 else 3)
+    (by decide) ?_
+  intro j
+  show (if j = 1 then 0 else if j = 118 ∨ j = 5 then 1 else if j = 7 ∨ j = 9 then 2 else 3) < 8
+  split
+  · omega
+  · split
+    · omega
+    · split <;> omega
+
+set_option maxRecDepth 100000 in
+theorem C07_rtOnto_encodable : EncOK rtOnto := by
+  refine ⟨by decide, ?_, ?_, ?_, ?_, by decide, by decide, by decide, by decide, by decide⟩
+  · simp only [rtOnto]; decide
+  · simp only [rtOnto]; decide
+  · simp only [rtOnto, DiseaseOK]; decide
+  · simp only [rtOnto, DiseaseOK]; decide
+
+/-- the hypotheses of `C07_roundtrip` / `C07_never_rejected` / `C07_record_order` hold together … -/
+example : Reachable rtOnto ∧ EncOK rtOnto := ⟨C07_rtOnto_reachable, C07_rtOnto_encodable⟩
+
+set_option maxRecDepth 100000 in
+/-- … on an ontology whose round trip really cuts a name (600 → 254 bytes) and is not the identity -/
+example : (truncOnto rtOnto).genes.map (fun r => (utf8 r.name).length) = [5, 254] ∧
+    rtOnto.genes.map (fun r => (utf8 r.name).length) = [5, 600] := by decide
+
+/-- … and `FactsPerm` has non-trivial instances: every section reversed -/
+example : FactsPerm (factsOf rtOnto)
+    { version := (factsOf rtOnto).version, terms := (factsOf rtOnto).terms.reverse,
+      parents := (factsOf rtOnto).parents.reverse, genes := (factsOf rtOnto).genes.reverse,
+      omim := (factsOf rtOnto).omim.reverse, orpha := (factsOf rtOnto).orpha.reverse } :=
+  ⟨rfl, (List.reverse_perm _).symm, (List.reverse_perm _).symm, (List.reverse_perm _).symm,
+   (List.reverse_perm _).symm, (List.reverse_perm _).symm⟩
 
 end Hpo.C07
